@@ -498,6 +498,21 @@ func allInjections() []injection {
 			}
 			return true
 		}),
+		acctInj("I11 embedded token invalid in itself", func(g *cleanGen, ac *jwt.AccountClaims) bool {
+			// a token bound to this import in every respect (issuer, subject, kind, grant) whose own claims break a
+			// rule of activation claims: issuer_account that is not an account key (V3)
+			i := anyImport(g, ac, anyI)
+			exp := newSigner("account")
+			act := jwt.NewActivationClaims(ac.Subject)
+			act.ImportSubject, act.ImportType = ">", i.Type
+			act.IssuerAccount = g.pick(g.userKey(), "junk", g.kr.by["operator"].pub)
+			tok, err := act.Encode(exp.kp)
+			if err != nil {
+				return false
+			}
+			i.Account, i.Token = exp.pub, tok
+			return true
+		}),
 		acctInj("I10 overlapping service imports", func(g *cleanGen, ac *jwt.AccountClaims) bool {
 			a := anyImport(g, ac, func(i *jwt.Import) bool { return i.Type == jwt.Service && i.Token == "" && i.LocalSubject == "" })
 			if a == nil {
